@@ -17,6 +17,7 @@ def run(ctx, *, focus, designs, gens, relevant, rule, liveness=None):
     with ThreadPoolExecutor(max_workers=8) as ex:
         futs = [ex.submit(pool.gen, ctx, pool.consts(**kw), depth, num, ctx.seed * 131 + k) for k, (kw, depth, num) in enumerate(gens)]
         scns = [s for f in futs for s in f.result()]
+    scns = pool.pinned() + scns   # the repository's own test_local.py scenarios come first
     ctx.phase("drive %d scenarios on the virtual-time loop" % len(scns))
     traces = pmap(pooldrive.drive, list(enumerate(scns)))
     ctx.phase("validate (focus %s)" % focus)
@@ -31,6 +32,17 @@ def run(ctx, *, focus, designs, gens, relevant, rule, liveness=None):
                 {"cores": t["cores"], "generated": scns[t["id"]]["ev"], "events": t["events"], "logs": t["logs"], "kind": "pool"},
                 {"longest_matched_prefix": k - 1 if k else None, "next_event": t["events"][k - 1] if k and k - 1 < len(t["events"]) else None},
             )
+    npin = 0
+    for t in traces:
+        scn = scns[t["id"]]
+        if "pinned" in scn:
+            npin += 1
+            why = pool.pinned_mismatch(scn, t)
+            if why and t["id"] in acc:
+                ctx.violation([focus + "_repo_test_expectation"],
+                              {"cores": t["cores"], "generated": scn["ev"], "events": t["events"], "logs": t["logs"], "kind": "pool", "pinned": scn["pinned"]},
+                              {"mismatch": why})
+    ctx.cov["repo_test_scenarios_validated"] = npin
     kinds = {}
     nontriv = set()
     for t in traces:
